@@ -42,11 +42,12 @@ abbrev Batch := List Cmd
 
 inductive Err where
   | noChain | noTarget | noSet | busy | builtin | syntax
+  | fault   -- an injected failure of an iptables call (no effect)
   deriving DecidableEq, Repr
 
 def Err.toString : Err → String
   | .noChain => "no-chain" | .noTarget => "no-target" | .noSet => "no-set"
-  | .busy => "busy" | .builtin => "builtin" | .syntax => "syntax"
+  | .busy => "busy" | .builtin => "builtin" | .syntax => "syntax" | .fault => "injected"
 
 /-! ## Reading a rule: option arities, jump target, referenced sets -/
 
@@ -441,11 +442,109 @@ def deleteJumps (hash : String → String) (T : Table) : List Port → Table × 
     | .error e => (T, some e)
     | .ok T' => deleteJumps hash T' ps
 
-/-- `CleanPortMapping`: delete the KUBE-HOSTPORTS rules one by one, then restore -/
-def clean (hash : String → String) (T : Table) (ps : List Port) : Table × Option Err :=
-  match (if Generated.Netfilter.cleanDeletesJumpRulesBeforeRestore then deleteJumps hash T ps else (T, none)) with
+/-- the `EnsureChain(nat, chain of port)` loop at the head of CleanPortMapping (since the fix of
+    `cleanup-fails-when-chains-missing`): afterwards `iptables -C … -j KUBE-HP-x` always finds its target -/
+def ensureChains (hash : String → String) (T : Table) : List Port → Table
+  | [] => T
+  | p :: ps => ensureChains hash (ensureChain T (chainName hash p)).2 ps
+
+/-- `CleanPortMapping`: (`ensureFirst`: make sure the chains exist,) delete the KUBE-HOSTPORTS rules one by
+    one, then restore.  `ensureFirst = false` is the code before the fix. -/
+def cleanWith (ensureFirst : Bool) (hash : String → String) (T : Table) (ps : List Port) : Table × Option Err :=
+  let T0 := if ensureFirst then ensureChains hash T ps else T
+  match (if Generated.Netfilter.cleanDeletesJumpRulesBeforeRestore then deleteJumps hash T0 ps else (T0, none)) with
   | (T, some e) => (T, some e)
   | (T', none) => if Generated.Netfilter.cleanRestores then commit (fun _ => true) T' (cleanBatch hash ps) else (T', none)
+
+def clean (hash : String → String) (T : Table) (ps : List Port) : Table × Option Err :=
+  cleanWith Generated.Netfilter.cleanEnsuresChainsFirst hash T ps
+
+/-! ## The per-pod protocol of pkg/galaxy/server.go around the port file
+  (setupPortMapping: open sockets, record the ports in /var/lib/cni/galaxy/port/<containerID>, SetupPortMapping;
+   a failed ADD, the DEL and the GC clean up exactly what the record lists) -/
+
+/-- SetupPortMapping in which iptables call number `k` fails without effect: 0 = the restore,
+    i+1 = the EnsureRule of the i-th port; beyond the last call there is no fault -/
+def setupFault (hash : String → String) (k : Nat) (T : Table) (ps : List Port) : Table × Option Err :=
+  match k with
+  | 0 => (T, some .fault)
+  | i + 1 =>
+    match commit (fun _ => true) T (setupBatch hash ps) with
+    | (T, some e) => (T, some e)
+    | (T', none) =>
+      if Generated.Netfilter.setupEnsuresJumpRulesAfterRestore then
+        (if i < ps.length then
+          (match ensureJumps hash T' (ps.take i) with
+           | (T'', some e) => (T'', some e)
+           | (T'', none) => (T'', some .fault))
+         else ensureJumps hash T' ps)
+      else (T', none)
+
+/-- CleanPortMapping in which iptables call number `j` fails.  With `ensureFirst`: j < n the EnsureChain of port j,
+    n ≤ j < 2n the DeleteRule of port j-n, j = 2n the restore; without: j < n the DeleteRule, j = n the restore -/
+def cleanFaultWith (ensureFirst : Bool) (hash : String → String) (j : Nat) (T : Table) (ps : List Port) :
+    Table × Option Err :=
+  if ensureFirst then
+    (if j < ps.length then (ensureChains hash T (ps.take j), some .fault)
+     else if j ≤ 2 * ps.length then
+       (match deleteJumps hash (ensureChains hash T ps) (ps.take (j - ps.length)) with
+        | (T', some e) => (T', some e)
+        | (T', none) => (T', some .fault))
+     else cleanWith true hash T ps)
+  else
+    (if j ≤ ps.length then
+      (match deleteJumps hash T (ps.take j) with
+       | (T', some e) => (T', some e)
+       | (T', none) => (T', some .fault))
+     else cleanWith false hash T ps)
+
+/-- the NAT table and the port file of one container -/
+structure PodState where
+  T : Table
+  file : Option (List Port)
+  deriving Repr
+
+/-- `cleanIPtables(containerID)`: clean what the port file lists, then remove the file; returns success -/
+def cleanupPortWith (ef : Bool) (hash : String → String) (fault : Option Nat) (s : PodState) : PodState × Bool :=
+  match s.file with
+  | none => (s, true)
+  | some ps =>
+    if ps = [] then (s, true)
+    else
+      match (match fault with
+             | none => cleanWith ef hash s.T ps
+             | some j => cleanFaultWith ef hash j s.T ps) with
+      | (T', none) => (⟨T', if Generated.Netfilter.cleanupRemovesFileAfterClean then none else s.file⟩, true)
+      | (T', some _) => (⟨T', s.file⟩, false)
+
+/-- the port-mapping part of a CNI ADD (`setupPortMapping` + the failure cleanup of `requestFunc`) -/
+def addPodWith (ef : Bool) (hash : String → String) (fault : Option Nat) (s : PodState) (ps : List Port) :
+    PodState × Bool :=
+  if ps = [] then (s, true)
+  else
+    let recorded := if Generated.Netfilter.portFileSavedBeforeSetup then some ps else s.file
+    match (match fault with
+           | none => setup hash s.T ps
+           | some k => setupFault hash k s.T ps) with
+    | (T1, none) => (⟨T1, some ps⟩, true)
+    | (T1, some _) =>
+      if Generated.Netfilter.addFailureRunsCleanup then ((cleanupPortWith ef hash none ⟨T1, recorded⟩).1, false)
+      else (⟨T1, recorded⟩, false)
+
+/-- the port-mapping part of a CNI DEL -/
+def delPodWith (ef : Bool) (hash : String → String) (fault : Option Nat) (s : PodState) : PodState × Bool :=
+  if Generated.Netfilter.delRunsCleanup then cleanupPortWith ef hash fault s else (s, true)
+
+/-- one GC pass over the port directory for a dead container (`removeLeakyStateFile`): the port-clean callback,
+    then the file is removed whatever the callback returned -/
+def gcPodWith (ef : Bool) (hash : String → String) (s : PodState) : PodState :=
+  ⟨(cleanupPortWith ef hash none s).1.T, none⟩
+
+def cleanFault := cleanFaultWith Generated.Netfilter.cleanEnsuresChainsFirst
+def cleanupPort := cleanupPortWith Generated.Netfilter.cleanEnsuresChainsFirst
+def addPod := addPodWith Generated.Netfilter.cleanEnsuresChainsFirst
+def delPod := delPodWith Generated.Netfilter.cleanEnsuresChainsFirst
+def gcPod := gcPodWith Generated.Netfilter.cleanEnsuresChainsFirst
 
 def basicRule : Rule := normRule (words id noPort Generated.Netfilter.basicRuleArgs)
 
